@@ -206,7 +206,7 @@ CLAIMED = {
         "running real workflows (manual executor, prescribed completion order) and comparing the merged start/finish log, "
         "outputs, flags, derived trigger wiring and starting nodes with the model's code-shaped scheduler, which is proved "
         "to be one of the machine's event sequences.",
-   design="7/C01", technique="Coq invariant proof (edge-token invariant) over an event machine + trace correspondence + oracle",
+   design="7/C01", technique="Coq invariant proof (edge-token invariant) over an event machine + the all-of trigger wiring REGENERATED from topology.py on every run and proved to be the model's wiring (translator tie) + trace correspondence + oracle",
    note="Trusts: Coq kernel/vm_compute; the harness's manual executor and the replacement of composite.sleep as schedule; toposort's first "
         "layer = sources. Executor callbacks are modelled as atomic events: the finish/checkpoint/emit split (DESIGN S20) and real "
         "thread timing are not exhibited. Nested macros are covered by the oracle only."),
